@@ -143,7 +143,9 @@ OpsNow ==
                             (* RESTRICTION: suspend through a bar that is not attached to the visible *)
                             (* target (removed from its MultiProgress) cannot coordinate with what is *)
                             (* on screen; writing from such a closure is the caller's own business.   *)
-                            -> IF nm = "suspend" /\ ~Visible(S, b) THEN {} ELSE { ([m |-> TextOf(s, nlog)] @@ BarOp(nm, b, dt)) : s \in (IF nm = "suspend" THEN TextShapes \ {"e", "nl", "Tnl", "nlT"} ELSE TextShapes) }
+                            (* RESTRICTION: a line printed through a member while its MultiProgress is hidden is kept by the library and appears when the  *)
+                            (* MultiProgress is shown (see DESIGN N2); whether it should is not specified, so it is not generated where a hidden one is shown *)
+                            -> IF nm = "suspend" /\ ~Visible(S, b) THEN {} ELSE IF nm = "println" /\ "mp_set_target" \in MpOps /\ S.mphid /\ S.bars[b].inmp THEN {} ELSE { ([m |-> TextOf(s, nlog)] @@ BarOp(nm, b, dt)) : s \in (IF nm = "suspend" THEN TextShapes \ {"e", "nl", "Tnl", "nlT"} ELSE TextShapes) }
                        [] nm \in {"set_style", "restyle"} -> { ([tpl |-> t] @@ BarOp(nm, b, dt)) : t \in (IF nm = "restyle" THEN Tpls \ {"KM", "KC"} ELSE Tpls) }
                        (* the style of another bar (ProgressBar::style()) given to this one *)
                        [] nm = "copy_style" -> { ([b2 |-> o] @@ BarOp(nm, b, dt)) : o \in AliveBars \ {b} }
@@ -172,6 +174,9 @@ OpsNow ==
                        [] nm = "mp_set_move_cursor" -> (* only before anything is drawn: the mode is documented for frames that keep their shape *)
                                                        IF \A b \in S.ids : ~S.bars[b].drawn THEN { [op |-> nm, b |-> 0, dt |-> 0, n |-> 1] } ELSE {}
                        [] nm = "mp_is_hidden" -> { [op |-> nm, b |-> 0, dt |-> 0] }
+                       (* RESTRICTION: a new terminal target starts painting at the cursor; after an abandoned region that is at the right edge of its last *)
+                       (* line, which is the caller's business: the MultiProgress is shown (again) only while nothing was abandoned                        *)
+                       [] nm = "mp_set_target" -> { [op |-> nm, b |-> 0, dt |-> 0, target |-> t] : t \in (IF S.mphid THEN (IF S.ghosts THEN {} ELSE {"spy"}) ELSE {"hidden"}) }
                        [] nm = "mp_set_alignment" -> { [op |-> nm, b |-> 0, dt |-> 0, a |-> a] : a \in {"top", "bottom"} \ {S.align} }
                        [] OTHER -> {}) : nm \in MpOps }
        ELSE {})
@@ -243,7 +248,7 @@ IAdvance(i, o, S0, S1) ==
               [] o.op \in {"mp_suspend", "suspend"} -> IPaint([i EXCEPT !.zl = 0, !.ll = 0], S1, FALSE)
               [] o.op = "drop" -> IF ~inord THEN i
                                   ELSE IZombie(IF S0.bars[o.b].fin = "no" THEN IPaint(i, S1, FALSE) ELSE i, S1, o.b)
-              [] o.op \in {"set_style", "restyle", "copy_style", "clone", "drop_one", "mp_set_alignment", "mp_set_move_cursor", "reset_eta", "reset_elapsed", "fail_at", "is_hidden", "mp_is_hidden", "downgrade", "upgrade"} -> i
+              [] o.op \in {"set_style", "restyle", "copy_style", "clone", "drop_one", "mp_set_alignment", "mp_set_move_cursor", "reset_eta", "reset_elapsed", "fail_at", "is_hidden", "mp_is_hidden", "mp_set_target", "downgrade", "upgrade"} -> i
               [] OTHER -> IF inord THEN IPaint(i, S1, FALSE) ELSE i
 
 Step == /\ Len(hist) < D
